@@ -534,6 +534,18 @@ def sym_handlers(vc):
             else:
                 check(it, 'raise-policy-never-returns', False)
         vc.explore(fk, thunk)
+    # clear with NO field at fault (a whole-row check names none): there is nothing to null -- "clear nulls exactly the offending
+    # fields" -- so the row cannot be kept as valid: it is left out, untouched
+    fk = vc.under_contract(SV_FILE, ['clear'])
+
+    def thunk_nofield(it):
+        hfn = real_function(it, 'dataflows.base.schema_validator', 'clear')
+        row = sym_row(it, 'row')
+        before = row.snapshot()
+        r = it.call(hfn, [sym_str(it, 'rn'), row, sym_int(it, 'i'), None, None])
+        check(it, 'clear-without-a-field-leaves-the-row-out', _b(it.truth(r)) == z3.BoolVal(False))
+        check(it, 'clear-without-a-field-leaves-the-row-untouched', same_row(row, before))
+    vc.explore(fk, thunk_nofield)
 
 
 # ------------------------------------------------------------------------------------------------ set_type
@@ -953,13 +965,14 @@ def sym_validate_with_schema(vc):
 
 def nat_validate(h):
     from dataflows import Flow, validate
-    for _ in range(h.n(30, 300)):
-        vals = [h.rng.randint(0, 5) for _ in range(h.rng.randint(0, 6))]
+    grid = [(m, u) for m in ('drop', 'ignore', 'raise', 'clear') for u in (False, True)]
+    for t in range(h.n(30, 300)):
+        vals = [h.rng.randint(0, 5) for _ in range(h.rng.randint(0, 6))] if t >= len(grid) else [1, 5, 2, 4, 0]
         rows = [{'a': v} for v in vals]
-        mode = h.rng.choice(['drop', 'ignore', 'raise', 'clear'])
+        # (every policy x validator form once on a fixed table, then at random)
+        mode, use_field = grid[t] if t < len(grid) else (h.rng.choice(['drop', 'ignore', 'raise', 'clear']), h.rng.random() < 0.5)
         from dataflows.base.schema_validator import ignore, drop, raise_exception, clear
         hd = {'drop': drop, 'ignore': ignore, 'raise': raise_exception, 'clear': clear}[mode]
-        use_field = h.rng.random() < 0.5
         args = ('a', lambda v: v < 3) if use_field else (lambda row: row['a'] < 3,)
         got = h.run(lambda: Flow([dict(r) for r in rows], validate(*args, on_error=hd)).results(on_error=None)[0][0])
         bad = [i for i, v in enumerate(vals) if not v < 3]
